@@ -267,6 +267,33 @@ pub fn profile(name: &str) -> Profile {
                 ..base
             }
         }
+        "single" => {
+            // single-threaded histories for the determinism property (C20): everything except
+            // parallel phases and faults, all storage kinds
+            let mut w = storage_weights();
+            w.extend(lifecycle_weights());
+            w.push((ChangeSet, 3));
+            w.push((LazyInsert, 5));
+            w.push((LazyInsertAll, 2));
+            w.push((LazyRemove, 3));
+            w.push((LazyExec, 5));
+            w.push((RegisterReader, 4));
+            w.push((SetEmission, 1));
+            w.push((RestrictRead, 3));
+            w.push((RestrictShared, 3));
+            w.push((RestrictExcl, 3));
+            Profile {
+                name: "single",
+                weights: w,
+                frames: (1, 6),
+                ops: (2, 12),
+                slots: (2, 5),
+                kinds: KindFilter::Any,
+                par_pct: 0,
+                wide_pct: 2,
+                ..base
+            }
+        }
         "parallel" => {
             let mut w = lifecycle_weights();
             w.push((Insert, 6));
